@@ -3,6 +3,7 @@ reachable from given roots.  Discharge is by named idioms over the path conditio
 dominate the site (interval reasoning over comparisons against constants, constant folding
 for the hash variants, window-inside-gated-length); anything unmatched is reported."""
 from .. import sym, callgraph
+from .. import norm
 from ..norm import n, P, C, V, ANY, match, find_all
 from . import layout, common
 
@@ -363,6 +364,8 @@ def strip_widening(S, e, depth=0):
     if not isinstance(e, tuple) or not e or depth > 60:
         return e
     if isinstance(e[0], str):
+        if e[0] == "call" and isinstance(e[1], int) and len(e[3]) == 1 and norm.WIDENING_FROM.match(e[2]):
+            return strip_widening(S, e[3][0], depth + 1)  # u32::from(x) / x.into() between unsigned integers: lossless
         if e[0] == "cast" and e[1] == "IntToInt":
             inner = strip_widening(S, e[3], depth + 1)
             if e[3][0] == "const" and WIDTH.get(e[2]) and 0 <= e[3][1] < (1 << WIDTH[e[2]]):
